@@ -155,6 +155,9 @@ func (m *Machine) iterMethod(it *IterV, meth string, args []Val) Val {
 		ns := *st
 		ns.Pos = Add(st.Pos, IntLit(1))
 		m.Heap[it.Cell] = &ns
+		if m.W != nil {
+			m.W.Cells[it.Cell] = true
+		}
 		return &TupleV{}
 	case "Key":
 		m.safeSite("iterkey", Lt(st.Pos, st.N), "Iterator.Key panics when the iterator is not valid")
